@@ -17,7 +17,9 @@ PROP = 'C13'
 COQ_DIR = 'Repeat'
 ASSUMPTIONS = [
     'threads and timers are not modelled: the monitor loop runs synchronously; time advances only in monitor time.sleep and '
-    'task.wait(); the kill-delay timer (reactivex.timer) fires when the script says so',
+    'task.wait(); the kill-delay timer (reactivex.timer) fires when the script says so, or - timed scripts - when the fake clock '
+    'has reached the moment it was armed + the delay the engine passed to reactivex.timer (checked after every clock advance, '
+    'event and at the end of a task\'s wait)',
     'producer output is visible to the observer at the instant it is written (no NFS delay); output written after the '
     'producers-finished notification is excluded by hypothesis in C13_sees_final_output',
     '0 to 3 producers, duck-typed job, producer and task objects; in the engine-level scripts the script delivers the '
@@ -1008,7 +1010,9 @@ def run(ctx):
                 'earlier-stage producers, and exhaustively {same name, distinct} x {finished, not instantiated, alive} x 6 reference orders x the '
                 'finishing step of the subject for <= 3/5 polls); plus real-producer scripts (real Job objects + working directories staged in by the real '
                 'Job.stageIn: 11 reference shapes x repeating or not x 3 first-write steps, two-producer combinations, 150/2500 random shapes and scripts, late '
-                'stage-in); non-trivial = at least one launch and '
+                'stage-in); plus timed scripts (the value of kill-after-producers-done-delay matters: 0 in four spellings / 1 / 5 / 12 / 30 s x every '
+                'placement of the notification, also during any execution, x 5 outcome patterns x repeatRetries {0,3} for 4 (thorough 3,5,7) polls, and '
+                '900/12000 random ones; in every other family the value is drawn from 10 spellings incl. 0); non-trivial = at least one launch and '
                 'the notification delivered; distinct by (cfg, consumed script)')
     cases = corpus()
     ctx.count('corpus_cases', len(cases))
